@@ -530,11 +530,13 @@ package cache
 //@ func (d *dispatcher) RemoveHTTPCache(key []byte)
 //@   requires [recv] d != nil
 //@   requires [nolocks] nolocks()
-//@   modifies shardOf(d, key).cache.view, shardOf(d, key).cache.dom
+//@   modifies shardOf(d, key).cache.view, shardOf(d, key).cache.dom, $deletes
 //@   nopanic
 //@   ensures  [removed] !shardOf(d, key).cache.dom[keyOf(key)]
 //@   precall github.com/vicanso/pike/store.Store.Delete#0 [under-lock] held(shardOf(d, key).mu) && !shardOf(d, key).cache.dom[keyOf(key)]
 //@   precall github.com/vicanso/pike/store.Store.Delete#0 [own-key] $recv == d.store && $arg0 == key
+// C08/C18: with a store configured the record is deleted on every purge, resident entry or not
+//@   ensures [store-purged] d.store != nil ==> $deletes == old($deletes) + 1
 //@   atunlock [gone]   !shardOf(d, key).cache.dom[keyOf(key)]
 //@   atunlock [others] forall k any :: k != keyOf(key) ==> shardOf(d, key).cache.dom[k] == at(lastlock, shardOf(d, key).cache.dom[k])
 //@                      && shardOf(d, key).cache.view[k] == at(lastlock, shardOf(d, key).cache.view[k])
@@ -656,18 +658,19 @@ package cache
 //@   requires [recv] ds != nil
 //@   requires [registry] registryOK(ds)
 //@   requires [nolocks] nolocks()
-//@   modifies lru.Cache::view, lru.Cache::dom
+//@   modifies lru.Cache::view, lru.Cache::dom, $deletes
 //@   ensures [named]  name != "" && ds.m.dom[box(name)] ==> !shardOf(unbox(ds.m.vals[box(name)], "*dispatcher"), key).cache.dom[keyOf(key)]
 //@   ensures [absent] name != "" && !ds.m.dom[box(name)] ==> forall c *lru.Cache :: c.view == old(c.view) && c.dom == old(c.dom)
 //@   ensures [all]    name == "" ==> forall k any :: ds.m.dom[k] ==> !shardOf(unbox(ds.m.vals[k], "*dispatcher"), key).cache.dom[keyOf(key)]
 //@   ensures [locks]  nolocks()
+//@   rangeloop 0: modifies lru.Cache::view, lru.Cache::dom, $deletes
 //@   rangeloop 0: invariant [done] forall k any {$ridx[k]} :: $dom0[k] && $ridx[k] < $ri ==> !shardOf(unbox($vals0[k], "*dispatcher"), key).cache.dom[keyOf(key)]
 //@   rangeloop 0: invariant [same] nolocks() && $dom0 == ds.m.dom && $vals0 == ds.m.vals && registryOK(ds)
 
 //@ func RemoveHTTPCache(name string, key []byte)
 //@   requires [registry] dispatchersOK()
 //@   requires [nolocks] nolocks()
-//@   modifies lru.Cache::view, lru.Cache::dom
+//@   modifies lru.Cache::view, lru.Cache::dom, $deletes
 //@   ensures [named]  name != "" && defaultDispatchers.m.dom[box(name)] ==> !shardOf(unbox(defaultDispatchers.m.vals[box(name)], "*dispatcher"), key).cache.dom[keyOf(key)]
 //@   ensures [all]    name == "" ==> forall k any :: defaultDispatchers.m.dom[k] ==> !shardOf(unbox(defaultDispatchers.m.vals[k], "*dispatcher"), key).cache.dom[keyOf(key)]
 //@   ensures [absent] name != "" && !defaultDispatchers.m.dom[box(name)] ==> forall c *lru.Cache :: c.view == old(c.view) && c.dom == old(c.dom)
